@@ -1,6 +1,7 @@
 package mon
 
 import (
+	"unicode/utf8"
 	"math/rand"
 	"sort"
 	"strconv"
@@ -27,7 +28,26 @@ func pathString(segs []seg) string {
 
 // hostileKeys: keys that look like something else - list subscripts, names with white space at an edge (and their
 // trimmed twins), a path-like separator, reserved-looking names.
-var hostileKeys = []string{"a", "b", "k", "0", "1", "10", "k ", " k", "a/b", "b/c", "#attr", "_seq"}
+var hostileKeys = []string{"a", "b", "k", "0", "1", "10", "k ", " k", "a/b", "b/c", "#attr", "_seq", "caf\xe9", "\xffk"}
+
+// jsonSafeKeys: every key is valid UTF-8 (encoding/json replaces invalid bytes: the JSON-text wrappers are then not comparable).
+func jsonSafeKeys(v interface{}) bool {
+	switch t := v.(type) {
+	case map[string]interface{}:
+		for k, e := range t {
+			if !utf8.ValidString(k) || !jsonSafeKeys(e) {
+				return false
+			}
+		}
+	case []interface{}:
+		for _, e := range t {
+			if !jsonSafeKeys(e) {
+				return false
+			}
+		}
+	}
+	return true
+}
 
 // keyAlphabet returns base, or (one case in four) the hostile alphabet.
 func keyAlphabet(r *rand.Rand, base []string) []string {
